@@ -26,4 +26,50 @@ PROPS = {
         require=["rehash_in_place", "resize_grow", "steps_with_tombstones", "class_lt_group", "class_eq_group", "class_gt_group", "steps_at_full_load"],
         assumptions=COMMON_ASSUME,
     ),
+    "C02": dict(
+        level="exploration",
+        rule=("seeded random histories of safe API calls (incl. mem::forget of Drain/ExtractIf/IntoIter/Iter/Entry objects part-way, after which the "
+              "collection is used again and dropped) over HashMap for 14 (key,value) layout pairs and HashTable for 9 element layouts (size 0..200, align 1..64, "
+              "with and without drop glue) x 13 hash plans; oracles: the lane's sanitizer (debug assertions + ub_checks, ASan, Miri), the checking allocator "
+              "(red zones, poison, layout and double-free ledger), the element registry (checksum + liveness of every reference handed out, double drop) and "
+              "invariants I1-I6 after every call. evaluations = API calls executed under those monitors; distinct = (table-state signature x operation kind) "
+              "plus (collection x element layout) cells, as a set"),
+        lanes=dict(
+            quick=lanes(("dbg", 5, 15000), ("generic", 3, 15000), ("asan", 4, 15000), ("miri", 4, 15000)),
+            thorough=lanes(("dbg", 8, 180000), ("generic", 8, 180000), ("asan", 16, 180000), ("miri", 16, 240000)),
+        ),
+        require=["rehash_in_place", "resize_grow", "steps_with_tombstones", "class_lt_group", "class_eq_group", "class_gt_group", "class_singleton"],
+        assumptions=COMMON_ASSUME + ["ASan sees red zones and freed memory, not a wrong live slot inside the table's own block: that gap is covered by element checksums and Miri"],
+    ),
+    "C06": dict(
+        level="exploration",
+        rule=("seeded random histories over HashTable<E,CkAlloc> (find, find_mut, find_entry, entry, insert_unique, OccupiedEntry::remove + VacantEntry::insert "
+              "same-slot reinsertion, retain, extract_if, drain, clear, reserve, shrink, get_many_mut, iter_hash) for 6 element layouts incl. a ZST, hashes "
+              "assigned by 13 plans (arbitrary position/tag collisions, duplicates of identical elements); compared step-for-step with a multiset model, "
+              "plus find() of every stored element and I1-I5 after every call. distinct = table-state signature x operation kind"),
+        lanes=dict(
+            quick=lanes(("dbg", 10, 15000), ("generic", 6, 15000)),
+            thorough=lanes(("dbg", 16, 180000), ("generic", 16, 180000), ("miri", 8, 120000)),
+        ),
+        require=["rehash_in_place", "resize_grow", "steps_with_tombstones", "steps_with_duplicates", "class_lt_group", "class_gt_group"],
+        assumptions=COMMON_ASSUME,
+    ),
+    "C04": dict(
+        level="fault_enumeration",
+        rule=("for each sampled (state recipe, operation): dry-run the operation on a freshly built state to count invocations of every callback class "
+              "(Hash, BuildHasher, Eq/Equivalent, Clone, Drop, closures, Into, extend-iterator next); then for every class and every k below the count "
+              "(all k up to 10, sampled above) rebuild the state from its seed, arm the fuse (class,k), run the operation under catch_unwind and check: "
+              "no monitor event (double drop, bad free, garbage reference), I1-I4, len()==iter().count()==keys found by get, contents unchanged when a hasher "
+              "panicked while growing into a new allocation, no leak unless the panic came from Drop; then re-use, clear and drop the collection. "
+              "States: fresh, small, full (next insert resizes), tombstone-saturated (next insert rehashes in place), tombstoned, random history; 27 operations; "
+              "element pairs with and without drop glue. evaluations = fault points in which the fuse fired; distinct = (operation kind, callback class, path "
+              "[plain/alloc/resize/rehash_in_place], drop-glue or not, recipe) cells in which a fuse fired, as a set"),
+        lanes=dict(
+            quick=lanes(("dbg", 8, 20000), ("generic", 4, 20000), ("asan", 4, 20000)),
+            thorough=lanes(("dbg", 16, 240000), ("generic", 16, 240000), ("asan", 16, 240000), ("miri", 16, 300000)),
+        ),
+        require=["fired_hash", "fired_build_hasher", "fired_eq", "fired_clone", "fired_drop", "fired_closure", "fired_into", "fired_iter_next",
+                 "fired_path_rehash_in_place", "fired_path_resize", "fired_no_drop_glue", "grow_hash_panic_contents_checked"],
+        assumptions=COMMON_ASSUME + ["one injected panic at a time (a second panic while unwinding would abort by language rule, outside the property)"],
+    ),
 }
